@@ -238,6 +238,10 @@ pub fn zoom_opts(quick: bool) -> Vec<Opts> {
         Zoom::Manual(vec![4, 16]),
         Zoom::Manual(vec![2, 4, 8]),
         Zoom::Auto { initial: 2, max: 3 },
+        // a manual list given in descending order
+        Zoom::Manual(vec![4, 2]),
+        // more levels than the ten the header directory was sized for
+        Zoom::Manual(vec![2, 3, 4, 5, 6, 7, 8, 9, 10, 11, 12]),
     ];
     let ipss: &[u32] = if quick { &[1, 1024] } else { &[1, 2, 1024] };
     let mut v = vec![];
@@ -904,8 +908,11 @@ fn check_zooms(
         }
     }
     if let Zoom::Manual(m) = &opts.zoom {
+        // stored in increasing order; the header directory has room for ten levels
         let mut want = m.clone();
         want.sort();
+        want.dedup();
+        want.truncate(10);
         // a manual list keeps every requested level that has at least one record
         let any_data = chroms.iter().any(|c| c.2.iter().any(|x| x.is_some()));
         if any_data && levels != want.as_slice() {
